@@ -78,6 +78,7 @@ class RegConcCheck(PropCheck):
 class C02(RegConcCheck):
     pid = "C02"
     prop_module = "SigHook.Props.C02"
+    extra_modules = ("SigHook.Props.C02b",)
     assumptions = [
         "SC for the half-locks (all SeqCst, checked); deliveries are simulated calls of the real dispatcher",
         "HashMap/BTreeMap/Arc modelled by their specifications; user actions are opaque terminating steps",
